@@ -32,9 +32,10 @@ CASES = {
                "o": {"how": "raised", "exc": "CheckCondition", "key": 5, "asc": 36, "ascq": 0, "raw": "none"}}],
         corrupt=lambda t: t[1]["o"].__setitem__("how", "returned"), at=1),
     "Trace_Handle": dict(
-        good=[{"a": "reset", "detect": True}, {"a": "exec", "obs": {"out": "ok", "sent": "current", "live": 1, "hopen": True}},
-              {"a": "replug", "obs": {"out": "ok", "sent": "none", "live": 0, "hopen": True}},
-              {"a": "exec", "obs": {"out": "ok", "sent": "current", "live": 1, "hopen": True}}],
+        good=[{"a": "reset", "detect": True, "mode": "rw"},
+              {"a": "exec", "obs": {"out": "ok", "sent": "current", "live": 1, "hopen": True, "hmode": "rw"}},
+              {"a": "replug", "obs": {"out": "ok", "sent": "none", "live": 0, "hopen": True, "hmode": "rw"}},
+              {"a": "exec", "obs": {"out": "ok", "sent": "current", "live": 1, "hopen": True, "hmode": "rw"}}],
         corrupt=lambda t: t[3]["obs"].__setitem__("sent", "stale"), at=3),
     "Trace_EnumSM": dict(
         good=[{"op": "reset"}, {"op": "new", "e": "E1", "items": [["a", 1]], "others": {}},
